@@ -36,13 +36,39 @@ def _self_attr(e):
     return None
 
 
+def _src_names(ctx):
+    """SRC and every package function that only forwards its own parameters to it (`return SRC(a, b)`):
+    such a wrapper is the same function of the instant, so calls to it count as calls to the source."""
+    c = getattr(ctx, '_date_src_names', None)
+    if c is not None:
+        return c
+    names = {SRC}
+    changed = True
+    while changed:
+        changed = False
+        for fi in ctx.m.pkg_functions():
+            if fi.name in names:
+                continue
+            body = [s for s in fi.node.body if not (isinstance(s, ast.Expr) and isinstance(s.value, ast.Constant))]
+            if len(body) != 1 or not isinstance(body[0], ast.Return) or not isinstance(body[0].value, ast.Call):
+                continue
+            c = body[0].value
+            fn = c.func.attr if isinstance(c.func, ast.Attribute) else c.func.id if isinstance(c.func, ast.Name) else None
+            params = [p for p in fi.params if p != 'self']
+            if fn in names and not c.keywords and [norm(a) for a in c.args] == params:
+                names.add(fi.name)
+                changed = True
+    ctx._date_src_names = names
+    return names
+
+
+def _is_src(ctx, n):
+    return isinstance(n, ast.Call) and ((isinstance(n.func, ast.Attribute) and n.func.attr in _src_names(ctx)) or
+                                        (isinstance(n.func, ast.Name) and n.func.id in _src_names(ctx)))
+
+
 def _src_calls(ctx, fi):
-    out = []
-    for n in ctx.own_nodes(fi):
-        if isinstance(n, ast.Call) and ((isinstance(n.func, ast.Attribute) and n.func.attr == SRC) or
-                                        (isinstance(n.func, ast.Name) and n.func.id == SRC)):
-            out.append(n)
-    return out
+    return [n for n in ctx.own_nodes(fi) if _is_src(ctx, n)]
 
 
 @rule('SA-DATE')
@@ -53,7 +79,7 @@ def same_source(ctx):
     nfun = 0
     for fi in ctx.m.pkg_functions():
         calls = _src_calls(ctx, fi)
-        if not calls or fi.qual == 'utils.' + SRC:
+        if not calls or fi.name in _src_names(ctx):
             continue
         nfun += 1
         sdefs = {}
@@ -154,20 +180,19 @@ def _unit_of_source(ctx):
     return None
 
 
-def _unit(expr, src_unit):
+def _unit(expr, src_unit, ctx=None):
     """unit of an expression built from a call to the source"""
-    if isinstance(expr, ast.Call) and ((isinstance(expr.func, ast.Attribute) and expr.func.attr == SRC) or
-                                       (isinstance(expr.func, ast.Name) and expr.func.id == SRC)):
+    if _is_src(ctx, expr):
         return src_unit
     if isinstance(expr, ast.BinOp) and isinstance(expr.right, ast.Constant) and expr.right.value == 15:
-        u = _unit(expr.left, src_unit)
+        u = _unit(expr.left, src_unit, ctx)
         if isinstance(expr.op, ast.Mult) and u == 'q15':
             return 'min'
         if isinstance(expr.op, ast.FloorDiv) and u == 'min':
             return 'q15'
         return '?'
     if isinstance(expr, ast.BinOp) and isinstance(expr.left, ast.Constant) and expr.left.value == 15 and isinstance(expr.op, ast.Mult):
-        u = _unit(expr.right, src_unit)
+        u = _unit(expr.right, src_unit, ctx)
         return 'min' if u == 'q15' else '?'
     return '?'
 
@@ -189,12 +214,11 @@ def units(ctx):
         for n in ctx.own_nodes(fi):
             if not (isinstance(n, ast.Assign) and len(n.targets) == 1 and _self_attr(n.targets[0])):
                 continue
-            if (fi.cls.qual, _self_attr(n.targets[0])) not in SINK_UNITS and not any(
-                    isinstance(x, ast.Call) and isinstance(x.func, ast.Attribute) and x.func.attr == SRC for x in ast.walk(n.value)):
+            if (fi.cls.qual, _self_attr(n.targets[0])) not in SINK_UNITS and not any(_is_src(ctx, x) for x in ast.walk(n.value)):
                 continue
             from .. import expand as _ex
             value = _ex.expand(ctx, fi, n.value, n)
-            if any(isinstance(x, ast.Call) and ((isinstance(x.func, ast.Attribute) and x.func.attr == SRC)) for x in ast.walk(value)):
+            if any(_is_src(ctx, x) for x in ast.walk(value)):
                 k = (fi.cls.qual, _self_attr(n.targets[0]))
                 seen.add(k)
                 want = SINK_UNITS.get(k)
@@ -202,7 +226,7 @@ def units(ctx):
                 if want is None:
                     obs.append(Ob('SA-UNITS', key, False, ctx.loc(fi, n), 'unknown sink for a GMT offset: add its unit to the table after reading the standard'))
                     continue
-                got = _unit(value, su)
+                got = _unit(value, su, ctx)
                 ok = got == want[0]
                 obs.append(Ob('SA-UNITS', key, ok, ctx.loc(fi, n),
                               '' if ok else 'stores the offset in %s, the field is defined in %s (%s)' % (
@@ -262,6 +286,9 @@ def instant(ctx):
                     continue
                 for f in callees:
                     seen_f.append(f.qual)
+                    if f.name in _src_names(ctx) and f.name != SRC:
+                        # a wrapper that only forwards its parameters: judge the function it forwards to
+                        f = ctx.func('utils.' + SRC)
                     params = [p.lstrip('*') for p in f.params if p != 'self']
                     gm = [x for x in ctx.own_nodes(f) if isinstance(x, ast.Call) and norm(x.func) == 'time.gmtime' and x.args and
                           isinstance(x.args[0], ast.Name) and x.args[0].id in params]
